@@ -1,4 +1,5 @@
-\* q_zones: see checks/ringlookup_common.py (UNIVERSES) for what this universe is for
+\* q_zones: C02: 4 single-token instances, zones 0..4 (fewer, equal, more than RF 1..4), ACTIVE/JOINING
+\* (generated from UNIVERSES in checks/ringlookup_common.py: python3 checks/ringlookup_common.py --write-cfgs)
 CONSTANTS
   NK = 5
   Gaps = {2}
@@ -11,10 +12,13 @@ CONSTANTS
   RFMax = 4
   Canon = 2
   WithRemove = FALSE
+  Excl = {}
   EmitOn = TRUE
+  EmitSets = TRUE
+  XMax = 0
 INIT Init
 NEXT Next
 VIEW View
-INVARIANTS TypeOK SizeOK ZoneOK ClockwiseFirst SlackExact WalkDefsAgree QuorumIntersection Emit
+INVARIANTS TypeOK SizeOK ZoneOK ClockwiseFirst SlackExact WalkDefsAgree QuorumIntersection ExpandedOK Emit
 PROPERTIES MinimalDisruption
 CHECK_DEADLOCK FALSE
